@@ -1221,6 +1221,17 @@ var g = &grammar{
 											val:        "oneway",
 											ignoreCase: false,
 										},
+										&notExpr{
+											pos: position{line: 321, col: 53, offset: 10300},
+											expr: &charClassMatcher{
+												pos:        position{line: 321, col: 54, offset: 10301},
+												val:        "[A-Za-z0-9._]",
+												chars:      []rune{'.', '_'},
+												ranges:     []rune{'A', 'Z', 'a', 'z', '0', '9'},
+												ignoreCase: false,
+												inverted:   false,
+											},
+										},
 										&ruleRefExpr{
 											pos:  position{line: 321, col: 53, offset: 10300},
 											name: "__",
